@@ -12,7 +12,13 @@ Complete enumeration (depth-1 state space, no sampling) of
       segment shapes (single / two-message / merge-patch) x payload compressibility x unknown fields,
   (e) encoder-side cases in which the message sizes change between decode and encode (objects edited
       through the protobuf API; segments built with create_iwa_segment), which is where the header
-      length refresh matters.
+      length refresh matters,
+  (e2) second encodings: every distinct archive stream (fixtures, generated documents, synthetic) is
+      decoded and encoded, then the SAME in-memory archive is edited (nothing / a size-preserving
+      change of the first or of the last message of every segment / a size-changing change / a
+      header-only change of object_references or should_merge) and encoded again; the expected
+      stream is built independently (pkg.segments + the same edit + pkg.join) and the second
+      encoding must also decode back to the edited in-memory archive.
 
 Oracle (independent code: mc/pkg.py + python-snappy + the generated protobuf classes; nothing of
 numbers_parser.iwafile is trusted):
@@ -69,6 +75,8 @@ BOUNDS = {
 }
 FAIL_CAP_PER_STREAM = 5  # a stream that already failed this often is not re-chunked further (failing runs only)
 EDIT_DELTAS = [-1, 1, 127, 128, 16384, 65536]
+# second encoding of the SAME in-memory archive after an edit (size-preserving edits must be written too)
+REENCODE_EDITS = ["none", "same-size-first", "same-size-last", "resize", "header-refs", "header-merge"]
 CREATE_SIZES = [0, 1, 127, 128, 65535, 65536, 70000]
 CREATE_COUNTS = [1, 2, 300]
 SNIFF_VARIANTS = ["marker-first", "marker-last", "drop-last-byte", "dangling-header", "length-plus-one"]
@@ -677,6 +685,169 @@ def eval_edit(src, delta):
     return res, False
 
 
+# -- (e2) a second encoding of the same in-memory archive ------------------------------------
+
+
+def _leaves(msg):
+    """Scalar leaves of a message in field order, depth first: (get, set, field descriptor)."""
+    for fd, val in msg.ListFields():
+        if fd.is_extension:
+            continue
+        rep_ = getattr(fd, "is_repeated", None)
+        if rep_ is None:
+            rep_ = fd.label == fd.LABEL_REPEATED
+        if fd.type in (fd.TYPE_MESSAGE, fd.TYPE_GROUP):
+            if fd.message_type.GetOptions().map_entry:
+                continue
+            for sub in (val if rep_ else [val]):
+                yield from _leaves(sub)
+        elif rep_:
+            yield (lambda c=val: c[0]), (lambda v, c=val: c.__setitem__(0, v)), fd
+        else:
+            yield (lambda m=msg, n=fd.name: getattr(m, n)), (lambda v, m=msg, n=fd.name: setattr(m, n, v)), fd
+
+
+def _same_size_value(fd, v):
+    t = fd.type
+    if t in (fd.TYPE_DOUBLE, fd.TYPE_FLOAT):
+        return -v if v != 0 else 1.0
+    if t == fd.TYPE_BOOL:
+        return not v
+    if t in (fd.TYPE_FIXED32, fd.TYPE_FIXED64, fd.TYPE_SFIXED32, fd.TYPE_SFIXED64, fd.TYPE_INT32, fd.TYPE_INT64,
+             fd.TYPE_UINT32, fd.TYPE_UINT64, fd.TYPE_SINT32, fd.TYPE_SINT64):
+        return v ^ 1
+    if t == fd.TYPE_STRING and v and ord(v[0]) < 128:
+        return ("A" if v[0] != "A" else "B") + v[1:]
+    if t == fd.TYPE_BYTES and v:
+        return bytes([v[0] ^ 1]) + v[1:]
+    return None
+
+
+def _other_size_value(fd, v):
+    t = fd.type
+    if t == fd.TYPE_STRING:
+        return v + "x"
+    if t == fd.TYPE_BYTES:
+        return v + b"x"
+    if t in (fd.TYPE_INT32, fd.TYPE_INT64, fd.TYPE_UINT32, fd.TYPE_UINT64):
+        return 300 if 0 <= v < 128 else 1
+    return None
+
+
+def edit_message(msg, same_size):
+    """Change the first scalar leaf of `msg` so that its serialised size stays equal (same_size) or
+    changes. Deterministic in the message content. -> True when the message was changed."""
+    before = msg.SerializePartialToString()
+    for get, put, fd in _leaves(msg):
+        old = get()
+        new = (_same_size_value if same_size else _other_size_value)(fd, old)
+        if new is None:
+            continue
+        try:
+            put(new)
+        except Exception:  # noqa: BLE001 - value not accepted by this field
+            continue
+        after = msg.SerializePartialToString()
+        if after != before and (len(after) == len(before)) == same_size:
+            return True
+        put(old)
+    return False
+
+
+def apply_edit(segs, edit):
+    """Apply one edit to an archive given as [(ArchiveInfo, [message objects])]; the same function is
+    applied to the library's in-memory objects and to the independently parsed ones.
+    -> number of segments changed."""
+    changed = 0
+    for ai, objs in segs:
+        if edit == "none" or not objs:
+            continue
+        if edit in ("same-size-first", "same-size-last", "resize"):
+            if edit == "same-size-last" and len(objs) < 2:
+                continue
+            o = objs[-1] if edit == "same-size-last" else objs[0]
+            changed += bool(o is not None and edit_message(o, edit != "resize"))
+        elif edit == "header-refs":
+            mi = ai.message_infos[0]
+            if len(mi.object_references):
+                mi.object_references[0] ^= 1
+            else:
+                mi.object_references.append(1)
+            changed += 1
+        elif edit == "header-merge":
+            if len(ai.message_infos) == 1:  # no effect on how the segment is decoded
+                ai.should_merge = not ai.should_merge
+                changed += 1
+    return changed
+
+
+def indep_objects(stream):
+    """Independent decode: [(ArchiveInfo, [message objects or None for unmapped types])]."""
+    out = []
+    for ai, pls in pkg.segments(stream):
+        objs = []
+        for i, (mi, pl) in enumerate(zip(ai.message_infos, pls)):
+            tid = mi.type
+            if tid == 0 and ai.should_merge and i > 0:
+                tid = ai.message_infos[mi.base_message_index].type
+            cls = ID_NAME_MAP.get(tid)
+            objs.append(cls.FromString(pl) if cls is not None else None)
+        out.append((ai, objs))
+    return out
+
+
+def lib_view(f):
+    return [(a.header, [getattr(o, "data", o) for o in a.objects]) for a in lib_archives(f)]
+
+
+def describe(segs):
+    return [(ai.SerializePartialToString(), [o.SerializePartialToString() for o in objs]) for ai, objs in segs]
+
+
+def eval_reencode(src, edit):
+    """decode, encode, edit the in-memory archive, encode the SAME object again: the second
+    encoding must be the edited archive (expected stream built independently with pkg.join), and
+    decoding it must give back the edited archive."""
+    ref = reference(src)
+    if ref["malformed"] or ref["stats"]["untyped"]:
+        return [], True
+    kind = src[0]
+    ident = {"mechanism": "re-encode", "edit": edit, "source": kind}
+    want_segs = indep_objects(ref["stream"])
+    if apply_edit(want_segs, edit) == 0 and edit != "none":
+        return [], True
+    want = pkg.join([[ai, [o.SerializePartialToString() for o in objs]] for ai, objs in want_segs])
+    try:
+        f = lib_decode(ref["blob"])
+        first = f.to_buffer()
+        apply_edit(lib_view(f), edit)
+        second = f.to_buffer()
+    except Exception as e:  # noqa: BLE001
+        return [({**ident, "class": "exception:" + exc_class(e)}, f"{type(e).__name__}: {e}")], False
+    res = check_output(second, kind, "re-encode")
+    try:
+        s1, s2 = pkg.unframe(first), pkg.unframe(second)
+    except pkg.PkgError as e:
+        return res + [({**ident, "class": "output-unframeable"}, str(e))], False
+    if s1 != ref["stream"]:
+        res.append(({**ident, "class": "first-encoding-differs"}, "first encoding of the decoded archive is not the input stream"))
+    if s2 != want:
+        stale = s2 == s1 and edit != "none"
+        cls, txt = classify_stream_diff(want, s2)
+        res.append(({**ident, "class": "stale-bytes" if stale else cls},
+                    f"second encoding after edit '{edit}' is not the edited archive"
+                    + (" (it repeats the first encoding byte for byte)" if stale else "") + f": {txt}"))
+    else:
+        try:
+            back = describe(lib_view(lib_decode(second)))
+        except Exception as e:  # noqa: BLE001
+            back = f"{type(e).__name__}: {e}"
+        if back != describe(lib_view(f)):
+            res.append(({**ident, "class": "decode-of-encoding-differs"},
+                        f"decoding the second encoding (edit '{edit}') does not give back the in-memory archive that was encoded"))
+    return res, False
+
+
 def eval_create(count, size, seed):
     """Segments built with create_iwa_segment (header length 0 until to_buffer) and encoded."""
     ident = {"mechanism": "create-encode", "source": "api"}
@@ -739,6 +910,9 @@ def eval_case(case):
         return res, sk, None
     if kind == "create":
         res, sk = eval_create(case[1], case[2], case[3])
+        return res, sk, None
+    if kind == "reencode":
+        res, sk = eval_reencode(case[1], case[2])
         return res, sk, None
     if kind == "generate":
         try:
@@ -878,8 +1052,10 @@ def work_encoder(task):
             continue
         part.count("evaluations")
         part.count("sniff_damaged_variants" if case[0] == "sniff" else f"{case[0]}_cases")
+        if case[0] == "reencode":
+            part.count(f"reencode_{case[2]}_{case[1][0]}")
         for ident, detail in res:
-            part.fail(ident, detail if case[0] != "sniff" else f"{case[1]}: {detail}", case)
+            part.fail(ident, detail if case[0] not in ("sniff", "reencode") else f"{case[1]}: {detail}", case)
     return part.dump()
 
 
@@ -1017,6 +1193,11 @@ def main():
         for size in CREATE_SIZES:
             enc.append(["create", count, size, seed])
             ecost.append(float(count))
+    for src, n, nmsg in distinct.values():  # every distinct stream (fixtures, generated documents, synthetic)
+        if n > 0:
+            for ed in REENCODE_EDITS:
+                enc.append(["reencode", src, ed])
+                ecost.append(0.1 + nmsg * 0.05 + n / 2e4)
     for src, n, _nmsg in distinct.values():
         if n > 0:
             for v in SNIFF_VARIANTS:
@@ -1061,6 +1242,8 @@ def main():
     run.outcome("re-chunking skipped: ambiguous stored piece", c["rechunk_skipped_ambiguous_stored_piece"])
     run.outcome("damaged framing judged by sniffer", c["sniff_damaged_variants"])
     run.outcome("encoder-side edit/create evaluated", c["edit_cases"] + c["create_cases"])
+    run.outcome("second encoding after edit evaluated", c["reencode_cases"])
+    run.outcome("second encoding: edit not applicable to this archive", c["reencode_not_applicable"])
     if run.n_failures:
         run.outcome("failed", run.n_failures)
 
@@ -1080,6 +1263,8 @@ def main():
               and c["rechunk_skipped_ambiguous_stored_piece"] >= 1)
     run.floor("every distinct non-empty stream was re-chunked", c["rechunk_streams"] == len(dsrcs))
     run.floor("encoder-side cases: >= 150 edits and all create cases", c["edit_cases"] >= 150 and c["create_cases"] == len(CREATE_COUNTS) * len(CREATE_SIZES))
+    run.floor("second encodings: every edit kind evaluated on fixture, generated and synthetic archives (>= 100 / 50 / 100 each; same-size-last >= 20)",
+              all(c[f"reencode_{ed}_{k}"] >= (20 if ed == "same-size-last" else m) for ed in REENCODE_EDITS for k, m in (("fix", 100), ("gen", 50), ("synth", 100))))
     run.floor("damaged-framing variants evaluated for the sniffer", c["sniff_damaged_variants"] >= 4 * len(dsrcs))
     run.assume("python-snappy, zipfile, google.protobuf and the generated message classes are trusted (schema and third-party codecs)")
     run.assume("well-formed = the independent walker accepts the chunk framing, the segment walk consumes the stream exactly and every message "
@@ -1087,10 +1272,10 @@ def main():
     run.assume("a stored piece that snappy accepts is an ambiguous container and is skipped (counted as rechunk_skipped_ambiguous_stored_piece)")
     single_max, pair_max = BOUNDS[tier]
     cov = {
-        "distinct_nontrivial": len(distinct) + c["rechunk_evaluations"] + c["sniff_damaged_variants"] + c["edit_cases"] + c["create_cases"],
+        "distinct_nontrivial": len(distinct) + c["rechunk_evaluations"] + c["sniff_damaged_variants"] + c["edit_cases"] + c["create_cases"] + c["reencode_cases"],
         "rule": "distinct archive streams (SHA-1 of the independently unframed stream; identical members of different fixtures count once) "
                 "+ executed (distinct stream, cut set, stored/compressed assignment) re-chunkings, skipped ambiguous assignments not counted "
-                "+ damaged-framing variants per distinct stream + encoder-side edit/create cases; each runs the real decoder and/or encoder "
+                "+ damaged-framing variants per distinct stream + encoder-side edit/create cases + (distinct stream, edit kind) second encodings; each runs the real decoder and/or encoder "
                 "and is compared with the independent framer/unframer",
         "bounds": {"all_single_cuts_up_to_bytes": single_max, "all_cut_pairs_up_to_bytes": pair_max, "boundary_family": "1,2,n/2,65535,65536,65537,n-1",
                    "synthetic_sizes": SIZES, "synthetic_segments": NSEGS, "synthetic_kinds": KINDS},
